@@ -271,7 +271,7 @@ class _InvWrapperBase(FnSpec):
                 ("suspension_state_restored", self.state_restored(c))]
 
     def modifies(self, c):
-        return [("attr:ctx_binding", INPROG), ("set", self.b0)]
+        return [("attr:ctx_binding", INPROG)]  # never the (possibly shared) set itself: C12
 
     def init_trace(self, c):
         return self.R.ev
